@@ -17,7 +17,7 @@ CLAIMED = {
     "C02": ("Melda level, executed from MIR: the files of a linear 2-commit history (all 24 orders, one full reload at a symbolic point) and of a concurrent+merge history (all 720 orders of 6 files) are "
             "delivered one at a time to a replica that refreshes after each: the visible state always equals the recorded state of exactly the causally complete blocks and a full reload of the same storage; "
             "objects de-duplicated against packs of held-back blocks; a block still waits for its own pack when its objects are readable elsewhere.", "DESIGN.md §5 C02"),
-    "C03": ("DataStorage pack writer vs pack re-indexer over the real MemoryAdapter for every string over { } [ ] , : \" \\ a tab newline up to the stated length, several object skeletons, 0..2 (thorough 3) "
+    "C03": ("DataStorage pack writer vs pack re-indexer over the real MemoryAdapter for every string over { } [ ] , : \" \\ a tab newline up to the stated length, several object skeletons, 0..2 "
             "objects per pack: every staged value is readable with the same content from the writing, a reopened and a refreshed storage. Melda level: commit then reopen shows the same state after 1..3 staged "
             "updates, with automatic array resolution, with id-only (empty) elements. Floats are outside the claim. Found the brace-in-string defect (fixed).", "DESIGN.md §5 C03"),
     "C04": ("Melda level, executed from MIR: after 0..2 earlier documents (committed or not) a document of one of five families (element orders and objects moving between two flattened arrays; flattened "
